@@ -114,7 +114,9 @@ class CircularConvolve(LinearOperator):
 
         if h_is_dft:
             self.h_dft = h
-            output_dtype = snp.dtype(input_dtype)  # cannot infer from h_dft because it is complex
+            # cannot infer from h_dft because it is complex: the input dtype unless stated
+            # (operators derived from one with a complex filter on a real input space)
+            output_dtype = snp.dtype(kwargs.pop("output_dtype", None) or input_dtype)
         else:
             fft_shape = input_shape[-self.ndims :]
             fft_axes = list(range(h.ndim - self.ndims, h.ndim))
@@ -212,6 +214,7 @@ class CircularConvolve(LinearOperator):
 
         return CircularConvolve(
             h=self.h_dft + other.h_dft,
+            output_dtype=result_type(self.output_dtype, other.output_dtype),
             input_shape=self.input_shape,
             input_dtype=result_type(self.input_dtype, other.input_dtype),
             ndims=self.ndims,
@@ -225,6 +228,7 @@ class CircularConvolve(LinearOperator):
 
         return CircularConvolve(
             h=self.h_dft - other.h_dft,
+            output_dtype=result_type(self.output_dtype, other.output_dtype),
             input_shape=self.input_shape,
             input_dtype=result_type(self.input_dtype, other.input_dtype),
             ndims=self.ndims,
@@ -235,6 +239,7 @@ class CircularConvolve(LinearOperator):
     def __mul__(self, scalar):
         return CircularConvolve(
             h=self.h_dft * scalar,
+            output_dtype=result_type(self.output_dtype, scalar),
             input_shape=self.input_shape,
             ndims=self.ndims,
             input_dtype=result_type(self.input_dtype, scalar),
@@ -245,6 +250,7 @@ class CircularConvolve(LinearOperator):
     def __truediv__(self, scalar):
         return CircularConvolve(
             h=self.h_dft / scalar,
+            output_dtype=result_type(self.output_dtype, scalar),
             input_shape=self.input_shape,
             ndims=self.ndims,
             input_dtype=result_type(self.input_dtype, scalar),
